@@ -1373,3 +1373,135 @@ C20_EV_INIT = dict(
             ("chain_ids must have one entry per theta", 1)],
 )
 ALL += [C20_EV_INIT]
+# ---- C19: nextflow/scripts/batchie.py (vocabulary: end of Model/Orchestrate.v) ----
+# A path the script holds is the model value it denotes: the output directory is the tree (fs), a globbed iteration
+# directory is iter_path = (index, its plate directories), a globbed plate directory is plate_path = ((i, j), its files).
+# Exceptions live in Orchestrate.sres (SNamed = a RuntimeError that names a job directory).
+_SRES = dict(type="sres", bind="dos", ok="SOk", fold="sfold", unwrap="sunwrap", bind_quote="")
+_C19 = dict(file="nextflow/scripts/batchie.py", out="SrcOrchestrate.v", imports="Model.Orchestrate", monad=_SRES, overload=True)
+# the helper functions: a glob for one file name under a job directory (the <name> level is abstracted: at most one match)
+_LEN0 = ("len(__l)", "Z.of_nat (length {l})", "Z")
+_GLOB = "list(glob.glob(os.path.join(output_dir, '*', '%s')))"
+C19_GET_SCREEN = dict(
+    _C19, func="get_screen_from_job_output", name="src_get_screen_from_job_output", pyparams=["output_dir"],
+    params=[("output_dir", "plate_path")], returns="opt spath",
+    vars={"advanced_screen_glob": "list spath", "training_screen_glob": "list spath"},
+    prims=[(_GLOB % "advanced_screen.h5", "glob_in_plate output_dir' KAdvanced", "list spath"),
+           (_GLOB % "training.screen.h5", "glob_in_plate output_dir' KTraining", "list spath"),
+           _LEN0, ("__l[0]", "!shead {l}", "spath", {"l": "list spath"})],
+)
+C19_VALIDATE = dict(
+    _C19, func="validate_job_dir_and_return_meta", name="src_validate_job_dir_and_return_meta", pyparams=["output_dir"],
+    params=[("output_dir", "plate_path")], returns="opt Z",
+    # screen_metadata: first the list of matches, then the first match; a metadata file / object is its n_unobserved_plates
+    vars={"screen_metadata": "list Z", "f": "Z", "screen_metadata_obj": "Z"}, retype={"screen_metadata": ["Z"]},
+    contexts=[("open(screen_metadata, 'r')", "screen_metadata'", "Z")],
+    prims=[(_GLOB % "screen_metadata.json", "glob_meta output_dir'", "list Z"),
+           _LEN0, ("__l[0]", "!shead {l}", "Z", {"l": "list Z"}), ("json.load(__f)", "{f}", "Z", {"f": "Z"})],
+)
+C19_GET_TEST_SCREEN = dict(
+    _C19, func="get_test_screen_from_job_output", name="src_get_test_screen_from_job_output", pyparams=["output_dir"],
+    params=[("output_dir", "job_path")], returns="opt spath", vars={"test_screen_glob": "list spath"},
+    prims=[(_GLOB % "training.screen.h5", "glob_in_job output_dir' KTraining", "list spath"),
+           _LEN0, ("__l[0]", "!shead {l}", "spath", {"l": "list spath"})],
+)
+C19_GET_THETAS = dict(
+    _C19, func="get_theta_and_dist_chunks", name="src_get_theta_and_dist_chunks", pyparams=["output_dir"],
+    params=[("done", "list action"), ("output_dir", "job_path")], returns="step",     # done: the actions of the call so far
+    vars={"thetas": "list spath", "dist_chunks": "list spath"},
+    prims=[(_GLOB % "thetas*.h5", "glob_in_job output_dir' KThetas", "list spath"),
+           (_GLOB % "distance_matrix_chunk*.h5", "glob_in_job output_dir' KDist", "list spath"),
+           _LEN0,
+           # the answer: the two glob patterns under that directory = the directory
+           ("{'thetas': os.path.join(output_dir, '*', 'thetas*.h5'), "
+            "'dist_chunks': os.path.join(output_dir, '*', 'distance_matrix_chunk*.h5')}", "snd output_dir'", "step")],
+    raises=[("No thetas or dist_chunks found", "SRaised done 2")],
+)
+C19_GET_SELECTED = dict(
+    _C19, func="get_selected_plates", name="src_get_selected_plates", pyparams=["output_dir"],
+    params=[("output_dir", "iter_job_path")], returns="opt list Z",
+    vars={"plates": "list Z", "output": "list Z", "fn": "Z", "f": "Z"},      # a selected_plate file is the plate id it holds
+    contexts=[("open(fn, 'r')", "fn'", "Z")],
+    prims=[("list(glob.glob(os.path.join(output_dir, 'plate_*', '*', 'selected_plate')))", "glob_selected output_dir'", "list Z"),
+           ("__f.read().strip()", "{f}", "Z", {"f": "Z"}), _LEN0],
+)
+C19_HELPERS = [C19_GET_SCREEN, C19_VALIDATE, C19_GET_TEST_SCREEN, C19_GET_THETAS, C19_GET_SELECTED]
+_NAMES_DIR = ". Consider deleting this directory to continue simulation: {plate_dir}"      # the directory the message names
+C19_EXAMINE = dict(
+    _C19, func="examine_output_dir_to_determine_current_iteration", name="src_examine",
+    pyparams=["output_dir", "batch_size"], params=[("output_dir", "fs"), ("batch_size", "Z")],
+    returns="(Z * Z * opt Z * opt spath)",
+    vars={"contents_of_output_directory": "list iter_path", "iter_dirs": "list iter_path", "iter_dir": "iter_path",
+          "contents_of_iter_directory": "list plate_path", "plate_dirs": "list plate_path", "plate_dir": "plate_path",
+          "last_successful_run_meta": "opt Z", "current_iter_index": "opt Z", "current_plate_idx": "opt Z",
+          "idx": "Z", "plate_idx": "Z", "next_iter_index": "Z", "next_plate_index": "Z"},
+    # plate_dir is read after the loops that bind it (only on paths where the inner loop ran: the linking proof shows the
+    # default is never read)
+    predefine={"plate_dir": "((0, 0), empty_pdir)"},
+    prims=[
+        ("glob.glob(output_dir + '/iter_*')", "glob_iters output_dir'", "list iter_path"),
+        ("glob.glob(__d + '/plate_*')", "glob_plates {d}", "list plate_path", {"d": "iter_path"}),
+        ("os.path.isdir(__x)", "true", "bool", {"x": "iter_path"}),       # every entry of the model tree is a directory
+        ("os.path.isdir(__x)", "true", "bool", {"x": "plate_path"}),
+        ("sorted(__l, key=dir_sort_key)", "sort_by iter_index {l}", "list iter_path", {"l": "list iter_path"}),
+        ("sorted(__l, key=dir_sort_key)", "sort_by plate_index {l}", "list plate_path", {"l": "list plate_path"}),
+        ("dir_sort_key(__x)", "iter_index {x}", "Z", {"x": "iter_path"}),
+        ("dir_sort_key(__x)", "plate_index {x}", "Z", {"x": "plate_path"}),
+        # the callees are the translated functions (C19_VALIDATE, C19_GET_SCREEN)
+        ("validate_job_dir_and_return_meta(__p)", "!src_validate_job_dir_and_return_meta {p}", "opt Z", {"p": "plate_path"}),
+        ("get_screen_from_job_output(__p)", "!src_get_screen_from_job_output {p}", "opt spath", {"p": "plate_path"}),
+    ],
+    raises=[("Found job dir with invalid structure" + _NAMES_DIR, "SNamed 1 (fst {plate_dir})"),
+            ("Found job dir with no apparent ancestor" + _NAMES_DIR, "SNamed 2 (fst {plate_dir})")],
+)
+ALL += C19_HELPERS + [C19_EXAMINE]
+
+# run_next_retrospective_step / run_next_prospective_step.  `acts` (no variable of the source) is the list of file-system
+# actions done so far; every read of the output directory reads `tree_after output_dir' acts'`, the tree as it is then.
+# A path built with os.path.join is the step (i, j) / the iteration index i it names.
+_NOW = "(tree_after output_dir' acts')"
+_STEP = dict(
+    _C19, pyparams=["output_dir", "input_screen", "extra_args", "batch_size"],
+    params=[("output_dir", "fs"), ("input_screen", "spath"), ("batch_size", "Z")],      # extra_args is only handed on
+    returns="bool", return_state=["acts'"], predefine={"acts": "[]"}, tail_dup=True,
+    vars={"acts": "list action", "experiment_name": "ename", "_": "ename",
+          "current_iter_index": "Z", "current_plate_idx": "Z", "last_successful_run_meta": "opt Z", "current_screen": "opt spath",
+          "plates_remaining": "Z", "job_output_dir": "step", "already_selected_plates": "opt list Z",
+          "first_output_dir": "step", "test_screen": "opt spath", "first_plate_of_iter_output_dir": "step",
+          "theta_and_dist_chunks": "step"},
+    prims=[
+        ("os.path.splitext(os.path.basename(input_screen))", "(tt, tt)", "(ename * ename)"),
+        # the callee is the translated examine (C19_EXAMINE), run on the tree as it is now
+        ("examine_output_dir_to_determine_current_iteration(output_dir, batch_size)", "!src_examine %s batch_size'" % _NOW,
+         "(Z * Z * opt Z * opt spath)"),
+        ("__m['n_unobserved_plates']", "{m}", "Z", {"m": "Z"}),           # the metadata object IS that entry
+        ("os.path.join(output_dir, f'iter_{__i}', f'plate_{__j}')", "({i}, {j})", "step", {"i": "Z", "j": "Z"}),
+        ("os.path.join(output_dir, f'iter_0', f'plate_0')", "(0, 0)", "step"),
+        ("os.path.join(output_dir, f'iter_{__i}', 'plate_0')", "({i}, 0)", "step", {"i": "Z"}),
+        # the callees are the translated functions (C19_GET_SELECTED, C19_GET_TEST_SCREEN, C19_GET_THETAS), on the tree as it is now
+        ("get_selected_plates(os.path.join(output_dir, f'iter_{__i}'))", "!src_get_selected_plates (%s, {i})" % _NOW, "opt list Z", {"i": "Z"}),
+        ("get_test_screen_from_job_output(__d)", "!src_get_test_screen_from_job_output (%s, {d})" % _NOW, "opt spath", {"d": "step"}),
+        ("get_theta_and_dist_chunks(__d)", "!src_get_theta_and_dist_chunks acts' (%s, {d})" % _NOW, "step", {"d": "step"}),
+    ],
+    effects=[
+        ("shutil.rmtree(job_output_dir, ignore_errors=True)", "acts'", "{state} ++ [ARmTree job_output_dir']"),
+        # makedirs creates one directory per missing path component
+        ("os.makedirs(job_output_dir, exist_ok=True)", "acts'", "{state} ++ [AMkIter (fst job_output_dir'); AMkPlate job_output_dir']"),
+        ("run_initial_plate(output_dir=__o, screen=__s, experiment_name=experiment_name, extra_args=extra_args)",
+         "acts'", "!launch_cmd {state} {o} (Some (LInit {s}))"),
+        ("run_first_batch_plate(output_dir=__o, training_screen=__t, test_screen=__s, experiment_name=experiment_name, "
+         "extra_args=extra_args)", "acts'", "!launch_cmd {state} {o} (first_cmd {t} {s})"),
+        ("run_first_prospective_batch_plate(output_dir=__o, screen=__s, experiment_name=experiment_name, extra_args=extra_args)",
+         "acts'", "!launch_cmd {state} {o} (Some (LProsp {s}))"),
+    ],
+    # creation of the output directory itself is not modelled (Orchestrate.v header)
+    ignore=["logger.info(__a)", "os.makedirs(output_dir, exist_ok=True)"],
+    raises=[("Could not find test screen in {first_output_dir}", "SRaised {acts} 1")],
+)
+_RUN_NEXT = ("run_subsequent_batch_plate(output_dir=__o, screen=__s, experiment_name=experiment_name, extra_args=extra_args, "
+             "thetas=__t['thetas'], dist_chunks=__t['dist_chunks'], excludes=__x)")
+C19_RETRO = dict(_STEP, func="run_next_retrospective_step", name="src_run_next_retrospective_step",
+                 effects=_STEP["effects"] + [(_RUN_NEXT, "acts'", "!launch_cmd {state} {o} (next_cmd {s} {t} {x})")])         # screen=current_screen: Optional
+C19_PROSP = dict(_STEP, func="run_next_prospective_step", name="src_run_next_prospective_step",
+                 effects=_STEP["effects"] + [(_RUN_NEXT, "acts'", "!launch_cmd {state} {o} (next_cmd (Some {s}) {t} {x})")])  # screen=input_screen
+ALL += [C19_RETRO, C19_PROSP]
